@@ -14,7 +14,9 @@ from mc.alphabets import NBSP
 ID = 'C04'
 
 TEXT_UNITS = ['a', ' ', '>', '+', '^', '*', '(', ')', '[', ']', '"', "'", '#', '.', '/', '=', ':', '!', '@', '-', '<', 'A', '1',
-              ',', '%', 'é', NBSP, '\\$', '\\}', '\\{', '\\\\', '\\a', '{a}', '{}', '*3', '$#'.replace('$#', '\\$#')]
+              ',', '%', 'é', NBSP, '\\$', '\\}', '\\{', '\\\\', '\\a', '{a}', '{}', '*3', '$#'.replace('$#', '\\$#'),
+              # a numbering `$` inside text is replaced by the counter (C02) but must not disturb the text around it, nested braces included
+              '$', '{b$c}']
 HOSTS = [
     ('x{%s}', '<x>', '</x>'),
     ('x{%s}>y', '<x>', '<y></y></x>'),
@@ -79,11 +81,13 @@ def shards(tier):
     return out
 
 
-def resolve(units):
+def resolve(units, counter=1):
     out = []
     for u in units:
         if len(u) >= 2 and u[0] == '\\':
             out.append(u[1:])
+        elif u in ('$', '{b$c}'):
+            out.append(u.replace('$', str(counter)))
         else:
             out.append(u)
     return ''.join(out)
@@ -99,9 +103,9 @@ def check_inline(hi, units):
     except Exception as e:
         return abbr, ('inline:exception:%s' % type(e).__name__, dict(abbr=abbr, error=str(e)[:120]))
     if host == '(x{%s})*2':
-        exp = '<x>%s</x><x>%s</x>' % (txt, txt)
+        exp = '<x>%s</x><x>%s</x>' % (txt, resolve(units, 2))
     elif host == 'x*2>{%s}+y':
-        exp = '<x>%s<y></y></x><x>%s<y></y></x>' % (txt, txt)
+        exp = '<x>%s<y></y></x><x>%s<y></y></x>' % (txt, resolve(units, 2))
     else:
         exp = pre + txt + post
     if out != exp:
@@ -146,6 +150,9 @@ def run_shard(shard, ctx, tier):
         abbr = None
         for units in explore.strings_of_shard(TEXT_UNITS, shard):
             if not units or units[0] == '<':
+                continue
+            if any(units[i] == '$' and units[i + 1][0] in '#@${' for i in range(len(units) - 1)):
+                ctx.skip('`$` followed by `#`, `@`, `$` or `{` is another token ($#, modifier, wider run, field)')
                 continue
             ctx.tick(units)
             ctx.states += 1
